@@ -204,6 +204,20 @@ func c19Laws(x []byte, report func(sig, detail, want, got string)) (digest uint6
 	if !bytes.Equal(x, orig) {
 		report("input-modified", "a utility function wrote into its argument", q(orig), q(x))
 	}
+	// a normal form is a Go string, i.e. immutable: it identifies the label for as long as it is kept (as a map key, say),
+	// whatever the caller later does with the byte slice the label was read from
+	func() {
+		defer func() { _ = recover() }()
+		y := append([]byte{}, orig...)
+		key := util.ToLinkReference(y)
+		keep := strings.Clone(key)
+		for i := range y {
+			y[i] ^= 0x55
+		}
+		if key != keep {
+			report("ToLinkReference:result-changes-with-the-callers-buffer", "the returned string shares memory with the argument: overwriting the argument afterwards changed the normal form that was returned", q([]byte(keep)), q([]byte(key)))
+		}
+	}()
 	return digest
 }
 
